@@ -82,6 +82,8 @@ class Replayer:
 			self.tracker.torn.add(f'{op["kind"]}:{op["m"] if op["kind"] != "parser" else ""}')
 		elif name == 'delete':
 			w.delete_output(op['m'])
+		elif name == 'oldversion':
+			w.old_version_output(op['m'])
 		elif name == 'run':
 			self.stats['runs'] += 1
 			before = w.all_files()
@@ -142,6 +144,9 @@ class Replayer:
 			from harness.fs_binding import source_hash
 			if real['header'] is None:
 				fail('output-header', f'output of {m} has no readable meta header')
+			elif hdr_variant == 0:
+				if real['header'].get('version') != '0.9.9':
+					fail('output-header', f'output of {m}: the specification has the header of another version here, the file says {real["header"].get("version")}')
 			elif hdr_variant is not None and real['header']['module']['hash'] != source_hash(self.graph, m, spec['hdr'][m]):
 				fail('output-header', f'output of {m}: header hash is not that of variant {spec["hdr"][m]}')
 			expect_body = self.oracle.body(m, spec['body'])
